@@ -66,13 +66,22 @@ enum { TZ, WEEKLY, ONESHOT, WORKDAY, DAY, CRON, CF, TIME,         // common pref
 enum Kind { K_WEEKLY, K_ONESHOT, K_WORKDAY, K_CRON };
 const char *kKindName[] = {"kind_weekly", "kind_oneshot", "kind_workday", "kind_cron"};
 
+// System time zones the lifecycle sub runs under (POSIX TZ strings that need no tzdata; minutes east of UTC).  Restricted to
+// (-12 h, +12 h): GetSystemTimezoneOffsetSeconds() derives the offset from the local time of day at 12:00 UTC, which is a day off
+// for zones at or beyond +12 h (outside the property statement, which speaks of explicit offsets; see NOTES.md).
+struct SysZone { const char *tz; int min; };
+const SysZone kSysZones[] = {{"UTC0", 0}, {"CST-8", 480}, {"EST5", -300}, {"XXX-5:45", 345}, {"YYY3:30", -210}, {"ZZZ-11", 660}, {"WWW11", -660}, {"VVV-1", 60}};
+const int kNumSysZones = 8;
+
 // content of a WorkdayCalendar shared by several alarms (lifecycle); a Config that points to one uses it instead of its own fields
 struct CalModel { int mask = 0x3e; std::map<int, bool> special; };
 
 struct Config {
   const CalModel *calp = nullptr;
   int kind = K_WEEKLY;
-  int tz_min = 0;
+  int tz_min = 0;             // effective offset: the explicit one, or the system zone's if setTimezone() is never called
+  bool tz_explicit = true;
+  int sys_idx = 0;            // system zone of the process while the case runs (lifecycle)
   int sod = 0;
   int mask = 0x7f;            // weekly: bit i = weekday i may fire (0 = Sunday)
   int mask_style = 0;
@@ -129,7 +138,11 @@ void build_config(const Scenario &s, size_t end, int64_t anchor_local, Config &c
   for (size_t k = 0; k < end && k < s.ops.size(); ++k) {
     const Op &op = s.ops[k];
     switch (op.code) {
-      case TZ: c.tz_min = (int)op.in(0, -720, 840); break;
+      case TZ:   // tz offset [mode [system-zone]]: mode 1 = no setTimezone() call, the alarm follows the system zone
+        c.sys_idx = (int)op.in(2, 0, kNumSysZones - 1);
+        c.tz_explicit = op.in(1, 0, 1) == 0;
+        c.tz_min = c.tz_explicit ? (int)op.in(0, -720, 840) : kSysZones[c.sys_idx].min;
+        break;
       case WEEKLY: c.kind = K_WEEKLY; c.sod = sod_of(op); c.mask = (int)op.in(2, 0, 127); c.mask_style = (int)op.in(3, 0, 2); break;
       case ONESHOT: c.kind = K_ONESHOT; c.sod = sod_of(op); break;
       case WORKDAY: c.kind = K_WORKDAY; c.sod = sod_of(op); c.workday_flag = op.in(2, 0, 1) != 0; c.cal_mask = (int)op.in(3, 0, 127); break;
@@ -230,6 +243,7 @@ bool satisfies(const Config &c, int64_t t) {
   return ((c.c_hour >> (tod / 3600)) & 1) && ((c.c_min >> ((tod % 3600) / 60)) & 1) && ((c.c_sec >> (tod % 60)) & 1);
 }
 
+int local_year(const Config &c, int64_t utc) { int y; unsigned m, d; civil_from_days((utc + c.tz_sec()) / kDay, y, m, d); return y; }
 enum Zone { Z_NONE, Z_MUST, Z_FREE };
 struct Ref { Zone z; int64_t t; };
 
@@ -249,7 +263,9 @@ Ref next_after(const Config &c, int64_t now) {
     else { tod = c.sod; if (d == 0 && tod <= tod0) continue; }
     Ref r; r.t = (day0 + d) * kDay + tod - c.tz_sec(); r.z = Z_MUST;
     if (c.kind == K_WORKDAY && d > 365) r.z = Z_FREE;
-    if (c.kind == K_CRON) { int y; civil_from_days(day0 + d, y, mm, dd); if (y - y0 > 3) r.z = Z_FREE; }
+    // ccronexpr gives up when a month roll-over reaches calendar year (start year + 5): `tm_year - dot > 4`.  An instant in
+    // start year + 4 (leap day asked at/after 29 Feb of a leap year) IS found; later ones (across 2100) may be reported or not.
+    if (c.kind == K_CRON) { int y; civil_from_days(day0 + d, y, mm, dd); if (y - y0 > 4) r.z = Z_FREE; }
     return r;
   }
   return Ref{Z_NONE, 0};
@@ -287,7 +303,7 @@ struct Subject {
       default: cr.reset(new CronProbe(lp)); a = cr.get(); break;
     }
     std::string e = init_(c, set_cal);
-    a->setTimezone(c.tz_min);
+    if (c.tz_explicit) a->setTimezone(c.tz_min);
     return e;
   }
   // initialize() of the EXISTING object with configuration c (same kind); also used to reconfigure it later
@@ -409,6 +425,7 @@ std::string run_next(const Scenario &s, CaseInfo &info) {
       if (c.kind == K_WORKDAY) info.cls_if(c.workday_flag != nc.workday_flag, "reconf_workday_mode_flipped");
       c = nc;
       std::string ie = sub.init(c);
+      c.tz_explicit = true;                    // (next_instant applies the offset itself; the system zone plays no role here)
       sub.a->setTimezone(c.tz_min);           // cleanup() drops the explicit time zone
       if (!ie.empty()) { err = ie + " when re-initialising an existing alarm"; break; }
       cron_classes(c, info);
@@ -443,6 +460,7 @@ std::string run_next(const Scenario &s, CaseInfo &info) {
     };
     if (r.z == Z_NONE) { info.cls("not_found_expected"); if (found) fail("no instant exists but one is reported"); prev_res = -1; continue; }
     if (r.z == Z_FREE) info.cls("horizon_edge");
+    if (c.kind == K_CRON && r.z == Z_MUST) { int dy = local_year(c, r.t) - local_year(c, now); info.cls_if(dy == 4, "cron_next_in_calendar_year_plus_4"); info.cls_if(dy == 3, "cron_next_in_calendar_year_plus_3"); }
     if (!found) { if (r.z == Z_MUST) fail("an instant exists inside the documented horizon but none is reported"); prev_res = -1; continue; }
     if (next_utc <= now) { fail("reported instant is not strictly after the current time"); continue; }
     if (!satisfies(c, next_utc)) { fail("reported instant does not satisfy the configuration"); continue; }
@@ -505,7 +523,8 @@ struct Life {
   std::unique_ptr<tbox::alarm::WorkdayCalendar> cal[2];   // declared before the units: calendars outlive the alarms
   CalModel calm[2];
   Unit u[kMaxUnits];
-  int cur = 0, tz_min = 0, created = 0;
+  int cur = 0, tz_min = 0, created = 0, sys_idx = 0;
+  bool tz_explicit = true;
   size_t pc = 0, ops_done = 0;
   std::string err;
   std::deque<Micro> q;
@@ -536,6 +555,7 @@ struct Life {
     x.T = r.t; x.M_arm = M; x.W_arm = W; x.skewed_since_arm = false;
     if (x.T - wsec() > kFarSec) { far_target = true; info.cls("target_gt_49d"); }
     if (x.T - wsec() > 366 * kDay) info.cls("target_gt_1y");
+    if (x.c.kind == K_CRON && r.z == Z_MUST && local_year(x.c, x.T) - local_year(x.c, start) == 4) info.cls("cron_armed_for_calendar_year_plus_4");
   }
 
   // disable() with the subscription bookkeeping
@@ -561,6 +581,7 @@ struct Life {
     if (!x.skewed_since_arm && W < x.T * 1000000) { fail(x, "callback fired while wall time < target although the clocks ran in lock-step"); return; }
     if (W < x.T * 1000000) { early_wake = true; info.cls("early_wake_by_skew"); }
     if (x.T - x.W_arm / 1000000 > kFarSec) info.cls("target_gt_49d_fired");
+    if (x.c.kind == K_CRON && ((x.c.c_dom >> 29) & 1) && x.c.c_dom != kFullDom && x.c.c_mon == (1u << 2)) info.cls("leap_day_alarm_fired");
     x.last_fired_T = x.T;
     info.cls_if(x.reconfigured, "fired_after_reconf");
     info.cls_if(created > 1, "fired_with_several_alarms");
@@ -724,6 +745,7 @@ struct Life {
         Unit &n = u[slot];
         int kind = (int)op.in(0, 0, 3);
         pc = derive_config(s, k, kind, tz_min, wsec() + (int64_t)tz_min * 60, n.c, false);
+        n.c.tz_explicit = tz_explicit; n.c.sys_idx = sys_idx;
         n.cal = kind == K_WORKDAY ? (int)op.in(5, 0, 1) : 0;
         std::string e = make_unit(n);
         if (!e.empty()) { fail(n, e); break; }
@@ -763,7 +785,8 @@ struct Life {
         }
         x.c = nc;
         std::string ie = x.sub.reinit(x.c, cal[x.cal].get());
-        if (via & 1) { x.sub.a->setTimezone(x.c.tz_min); Unit *px = &x; x.sub.a->setCallback([this, px] { on_fire(*px); }); }   // cleanup() dropped both
+        x.c.tz_explicit = tz_explicit; x.c.sys_idx = sys_idx;
+        if (via & 1) { if (tz_explicit) x.sub.a->setTimezone(x.c.tz_min); Unit *px = &x; x.sub.a->setCallback([this, px] { on_fire(*px); }); }   // cleanup() dropped both
         if (!ie.empty()) { fail(x, ie + " when re-initialising an existing alarm"); break; }
         cron_classes(x.c, info);
         if (x.c.kind == K_CRON && x.c.cron_invalid) { x.sub.destroy_alarm(); x.alive = false; break; }   // correctly rejected: no valid configuration any more
@@ -851,7 +874,14 @@ std::string run_life(const Scenario &s, CaseInfo &info) {
   Life L(s, info, clk.now, Wall::us());
   Unit &p = L.u[0];
   build_config(s, start, time_of(st), p.c);
-  L.tz_min = p.c.tz_min;
+  L.tz_min = p.c.tz_min; L.tz_explicit = p.c.tz_explicit; L.sys_idx = p.c.sys_idx;
+  // the process runs in the generated system zone while this case executes (glibc re-reads TZ on tzset())
+  setenv("TZ", kSysZones[L.sys_idx].tz, 1); tzset();
+  info.cls_if(L.sys_idx != 0, "system_zone_not_utc");
+  info.cls_if(!L.tz_explicit, "tz_follows_system_zone");
+  info.cls_if(L.tz_explicit && L.tz_min == 0, "tz_explicit_zero");
+  info.cls_if(L.tz_explicit && L.tz_min == 0 && L.sys_idx != 0, "tz_explicit_zero_under_non_utc_system_zone");
+  info.cls_if(L.tz_explicit && L.tz_min != 0 && L.tz_min == kSysZones[L.sys_idx].min, "tz_explicit_equals_system_zone");
   L.W = clamp_utc(time_of(st) - p.c.tz_sec()) * 1000000 + st.in(5, 0, 999999);
   L.loop.reset(tbox::event::Loop::New());
   for (int i = 0; i < 2; ++i) L.cal[i].reset(new tbox::alarm::WorkdayCalendar);
@@ -891,7 +921,9 @@ int64_t g_day() {  // raw local day offset from kMinDay, biased to month/year en
                      {2, just(days_from_civil(y, 12, 31) - kMinDay)}, {1, just(days_from_civil(y, 1, 1) - kMinDay)},
                      {2, just(days_from_civil(y - y % 4, 2, 29 - (y - y % 4 == 2100)) - kMinDay)}, {1, just(days_from_civil(y, 2, 28) - kMinDay)},
                      {2, just(days_from_civil(y, (unsigned)*range(1, 12), 1) - 1 - kMinDay)},
-                     {2, just(19000 + *range(0, 3000))}});
+                     {2, just(19000 + *range(0, 3000))},
+                     // anywhere in the four years after a leap day, dense right after it (leap-day cron alarms: next instant 4 years away)
+                     {2, just(days_from_civil(y - y % 4, 2, 28) + *pick({{2, range(0, 3)}, {1, range(0, 320)}, {2, range(0, 1461)}}) - kMinDay)}});
   if (*range(0, 3) == 0) { int64_t abs = d + kMinDay; abs += 6 - weekday_of(abs); d = abs - kMinDay; }   // a Saturday
   if (d < 0) d = 0;
   if (d > kMaxDay - kMinDay) d = kMaxDay - kMinDay;
@@ -905,7 +937,11 @@ std::vector<int64_t> g_sod() {
 int64_t g_mask() { return *pick({{1, just(0)}, {5, rc::gen::map(range(0, 6), [](int64_t b) { return (int64_t)1 << b; })}, {1, just(127)}, {1, just(0x3e)}, {6, range(0, 127)}}); }
 
 void g_config(Scenario &s, int64_t kind, bool far_bias) {
-  s.ops.push_back(op_of(TZ, {g_tz()}));
+  if (far_bias) {   // lifecycle: the system zone matters (alarms without setTimezone(), explicit offset 0 under a non-UTC zone)
+    int64_t sys = *pick({{1, just(0)}, {4, range(1, kNumSysZones - 1)}});
+    int64_t mode = *pick({{6, just(0)}, {1, just(1)}});
+    s.ops.push_back(op_of(TZ, {mode == 0 && *range(0, 9) == 0 ? (int64_t)kSysZones[sys].min + 720 : g_tz(), mode, sys}));
+  } else s.ops.push_back(op_of(TZ, {g_tz()}));
   switch (kind) {
     case K_WEEKLY: { auto sd = g_sod(); s.ops.push_back(op_of(WEEKLY, {sd[0], sd[1], g_mask(), *range(0, 2)})); break; }
     case K_ONESHOT: { auto sd = g_sod(); s.ops.push_back(op_of(ONESHOT, {sd[0], sd[1]})); break; }
@@ -946,7 +982,7 @@ void g_config(Scenario &s, int64_t kind, bool far_bias) {
         else item(5, *pick({{3, just(1)}, {1, just(5)}}));
       } else {                  // leap day / impossible dates
         for (int f = 0; f < 3; ++f) item(f, 1);
-        int64_t which = *range(0, 3);
+        int64_t which = *pick({{3, just(0)}, {1, just(1)}, {2, range(2, 3)}});
         int64_t dom = which == 0 ? 29 : (which == 1 ? 30 : 31), mon = which <= 1 ? 2 : *rc::gen::elementOf(std::vector<int64_t>{2, 4, 6, 9, 11});
         s.ops.push_back(op_of(CF, {3, 1, dom - 1, 0, 0, 0}));
         s.ops.push_back(op_of(CF, {4, 1, mon - 1, 0, 0, *range(0, 3)}));
@@ -1062,7 +1098,7 @@ rc::Gen<Scenario> gen_life() {
 
 const std::vector<const char*> kOpNames = {"tz", "weekly", "oneshot", "workday", "day", "cron", "cf", "time",
                                            "enable", "disable", "refresh", "advance", "early", "skew", "step", "calmask", "dayclr", "cbmode", "reconf", "sel", "spawn", "destroy"};
-const std::vector<int> kOpArity = {1, 4, 2, 4, 2, 0, 6, 6, 0, 0, 0, 3, 2, 1, 3, 1, 0, 1, 6, 1, 6, 0};
+const std::vector<int> kOpArity = {3, 4, 2, 4, 2, 0, 6, 6, 0, 0, 0, 3, 2, 1, 3, 1, 0, 1, 6, 1, 6, 0};
 
 SubDef def_next = [] {
   SubDef d; d.name = "next_instant";
